@@ -44,8 +44,9 @@ def finalize(session, prop, tier, seed, expected, replayers, kf_classes,
     lines = []
     exit_code = EXIT_OK
     violations = 0
-    os.makedirs(os.path.join(VERIF, 'replays'), exist_ok=True)
-    os.makedirs(os.path.join(VERIF, 'evidence'), exist_ok=True)
+    os.makedirs(os.environ.get('PYVC_EVIDENCE_DIR') or os.path.join(VERIF, 'replays'), exist_ok=True)
+    evdir = os.environ.get('PYVC_EVIDENCE_DIR') or os.path.join(VERIF, 'evidence')
+    os.makedirs(evdir, exist_ok=True)
 
     total = 0
     discharged = 0
@@ -194,7 +195,7 @@ def finalize(session, prop, tier, seed, expected, replayers, kf_classes,
         'wall_s': round(wall, 2),
         'violations': violations,
     }
-    with open(os.path.join(VERIF, 'evidence', '%s.json' % prop), 'w') as f:
+    with open(os.path.join(evdir, '%s.json' % prop), 'w') as f:
         json.dump(ev, f, indent=1, default=str)
 
     for l in lines:
@@ -231,7 +232,7 @@ def _only_inside_class(o, cls):
 
 def write_replay(S, prop, r, replayers):
     o, m, log, smt = r.failed[0]
-    path = os.path.join(VERIF, 'replays', '%s-%s.json' % (prop, slug(r.name)))
+    path = os.path.join(os.environ.get('PYVC_EVIDENCE_DIR') or os.path.join(VERIF, 'replays'), '%s-%s.json' % (prop, slug(r.name)))
     doc = {
         'property': prop,
         'obligation': r.name,
